@@ -536,6 +536,15 @@ def premade_scenarios(rng):
                      regularizer_configs=[O("configs.RegularizerConfig", name="calib_hessian", l2=0.125),
                                           O("configs.RegularizerConfig", name="torsion", l2=0.25)]),
       name="my_premade_lattice", trainable=False), info=dict(premade=2, rng=[0, 3])))
+  # feature-level AND model-level calibration regularizers (building the model must not change the feature configs)
+  S.append(dict(kind="obj", cls="premade.CalibratedLattice", name="feature_and_model_regularizers", kwargs=dict(
+      model_config=O("configs.CalibratedLatticeConfig",
+                     feature_configs=small_features(rng, 2, regularizer_configs=[
+                         O("configs.RegularizerConfig", name="calib_wrinkle", l2=0.5)]),
+                     output_initialization=[0.0, 1.0],
+                     regularizer_configs=[O("configs.RegularizerConfig", name="calib_hessian", l2=0.125),
+                                          O("configs.RegularizerConfig", name="calib_laplacian", l1=0.25)])),
+      info=dict(premade=2, rng=[0, 3])))
   S.append(dict(kind="obj", cls="premade.CalibratedLinear", name="no_bias", kwargs=dict(
       model_config=O("configs.CalibratedLinearConfig", feature_configs=small_features(rng, 3), use_bias=False,
                      output_min=0.0, output_max=2.0, output_initialization=[0.0, 2.0]),
